@@ -1,7 +1,8 @@
 (* SafeObjStmProofs.v -- C04, ObjectStream::new: the arithmetic never panics; the work (bytes parsed and kept) of one
-   object stream is at most pairs * |content| for every index, at most |content| when the offsets increase -- and the
-   quadratic bound is attained when they do not (known finding C04-objstm-shared-offsets). *)
-From LV Require Import Base.Bytes Model.Safe Model.SafeObjStm Proofs.SafeLemmas Proofs.SafeSearchProofs.
+   object stream is at most (MAX_MEMBER_OVERLAP + 1) * |content| for EVERY index and whatever the parser answers -- linear
+   since the repair of C04-objstm-shared-offsets; before it was the sum of the rests, pairs * |content| for an index that
+   repeats an offset (the witness is kept as a statement about the pinned code). *)
+From LV Require Import Base.Bytes Model.Safe Model.SafeObjStm Proofs.SafeLemmas Proofs.SafeSearchProofs Gen.ObjStmC.
 From Coq Require Import Lia.
 Local Open Scope N_scope.
 
@@ -16,64 +17,84 @@ Proof.
   apply N.leb_le in H. rewrite H. reflexivity.
 Qed.
 
-Definition total_rest (len first : N) (offs : list N) : N := fold_left (fun a off => a + member_rest len first off) offs 0.
+Lemma member_charge_le len first ou : member_charge len first ou <= len.
+Proof. unfold member_charge, member_rest. destruct (_ <=? _); lia. Qed.
 
+(* one pair: no panic; `spent` and the steps grow by the same amount, which is 0 when spent is above the limit already,
+   at most |content| otherwise; the request is at most |content| *)
+Lemma sobjstm_step_ok len first acc s ou : first <= ISIZE_MAX -> fst ou <= U32_MAX ->
+  outcome acc = SOk s ->
+  exists u, outcome (sobjstm_step len first acc ou) = SOk (s + u)
+    /\ steps (sobjstm_step len first acc ou) = steps acc + u
+    /\ max_alloc (sobjstm_step len first acc ou) = N.max (max_alloc acc) u
+    /\ u <= len /\ (sobjstm_limit len < s -> u = 0).
+Proof.
+  intros Hf Ho Ha. unfold sobjstm_step. rewrite outcome_bind, steps_bind, alloc_bind, Ha.
+  rewrite (sobjstm_offset_no_panic first (fst ou) Hf Ho), bind_ret_eq.
+  destruct (len <=? first + fst ou).
+  - exists 0. cbn [outcome steps max_alloc ret fst snd c0 c_steps c_alloc]. rewrite !N.add_0_r.
+    repeat split; try lia.
+  - destruct (sobjstm_limit len <? s) eqn:El.
+    + exists 0. cbn [outcome steps max_alloc ret fst snd c0 c_steps c_alloc]. rewrite !N.add_0_r.
+      repeat split; try lia.
+    + exists (member_charge len first ou). pose proof (member_charge_le len first ou).
+      cbn [outcome steps max_alloc request tick ret bind fst snd cjoin c_steps c_alloc c0].
+      apply N.ltb_ge in El. repeat split; try lia.
+Qed.
+
+Lemma sobjstm_work_run len first : first <= ISIZE_MAX -> forall ous (acc : M N) s,
+  Forall (fun ou => fst ou <= U32_MAX) ous ->
+  outcome acc = SOk s -> steps acc <= s -> max_alloc acc <= len -> s <= sobjstm_limit len + len ->
+  exists s', outcome (fold_left (sobjstm_step len first) ous acc) = SOk s'
+    /\ steps (fold_left (sobjstm_step len first) ous acc) <= s'
+    /\ max_alloc (fold_left (sobjstm_step len first) ous acc) <= len
+    /\ s' <= sobjstm_limit len + len.
+Proof.
+  intro Hf. induction ous as [|ou t IH]; intros acc s Ho Ha Hs Hl Hb; cbn [fold_left].
+  - exists s. auto.
+  - inversion Ho as [|? ? Ho1 Ho2]; subst.
+    destruct (sobjstm_step_ok len first acc s ou Hf Ho1 Ha) as [u [S1 [S2 [S3 [S4 S5]]]]].
+    apply (IH _ (s + u) Ho2 S1); [lia|lia|].
+    destruct (N.ltb_spec (sobjstm_limit len) s) as [Hgt|Hle]; [rewrite (S5 Hgt); lia|lia].
+Qed.
+
+Theorem sobjstm_work_safe len first ous : first <= ISIZE_MAX -> Forall (fun ou => fst ou <= U32_MAX) ous ->
+  no_panic (sobjstm_work len first ous)
+  /\ exists spent, outcome (sobjstm_work len first ous) = SOk spent
+     /\ steps (sobjstm_work len first ous) <= spent
+     /\ max_alloc (sobjstm_work len first ous) <= len
+     /\ spent <= (MAX_MEMBER_OVERLAP + 1) * len.
+Proof.
+  intros Hf Ho. unfold sobjstm_work.
+  destruct (sobjstm_work_run len first Hf ous (ret 0) 0 Ho eq_refl ltac:(cbn; lia) ltac:(cbn; lia) ltac:(lia))
+    as [s [R1 [R2 [R3 R4]]]].
+  split; [unfold no_panic; rewrite R1; reflexivity|].
+  exists s. repeat split; try assumption.
+  unfold sobjstm_limit in R4. lia.
+Qed.
+
+(* ---- the pinned code (before the repair): the sum of the rests, quadratic for an index that repeats an offset ---- *)
 Lemma fold_rest_acc len first : forall offs a, fold_left (fun a off => a + member_rest len first off) offs a
   = a + fold_left (fun a off => a + member_rest len first off) offs 0.
 Proof.
   induction offs as [|o t IH]; intro a; cbn [fold_left]; [lia|]. rewrite IH. rewrite (IH (0 + _)). lia.
 Qed.
 
-(* the run: no panic, the result is the sum of the rests, the largest request is at most |content| *)
-Lemma sobjstm_step_ok len first acc a o : first <= ISIZE_MAX -> o <= U32_MAX ->
-  outcome acc = SOk a -> max_alloc acc <= len ->
-  outcome (sobjstm_step len first acc o) = SOk (a + member_rest len first o) /\ max_alloc (sobjstm_step len first acc o) <= len.
-Proof.
-  intros Hf Ho Ha Hl. unfold sobjstm_step. rewrite outcome_bind, alloc_bind, Ha.
-  rewrite (sobjstm_offset_no_panic first o Hf Ho), bind_ret_eq. cbv zeta.
-  assert (Hr : member_rest len first o <= len) by (unfold member_rest; destruct (_ <=? _); lia).
-  split; [reflexivity|]. cbn [outcome max_alloc request tick ret bind fst snd cjoin c_alloc c0]. lia.
-Qed.
-
-Lemma sobjstm_work_run len first : first <= ISIZE_MAX -> forall offs (acc : M N) a,
-  Forall (fun o => o <= U32_MAX) offs ->
-  outcome acc = SOk a -> max_alloc acc <= len ->
-  outcome (fold_left (sobjstm_step len first) offs acc) = SOk (a + total_rest len first offs)
-  /\ max_alloc (fold_left (sobjstm_step len first) offs acc) <= len.
-Proof.
-  intro Hf. induction offs as [|o t IH]; intros acc a Ho Ha Hl; cbn [fold_left].
-  - unfold total_rest. cbn [fold_left]. rewrite Ha. split; [f_equal; lia|exact Hl].
-  - inversion Ho as [|? ? Ho1 Ho2]; subst.
-    unfold total_rest. cbn [fold_left]. rewrite fold_rest_acc. fold (total_rest len first t).
-    destruct (sobjstm_step_ok len first acc a o Hf Ho1 Ha Hl) as [Hs1 Hs2].
-    destruct (IH _ _ Ho2 Hs1 Hs2) as [I1 I2].
-    split; [rewrite I1; f_equal; lia|exact I2].
-Qed.
-
-Theorem sobjstm_work_safe len first offs : first <= ISIZE_MAX -> Forall (fun o => o <= U32_MAX) offs ->
-  no_panic (sobjstm_work len first offs)
-  /\ outcome (sobjstm_work len first offs) = SOk (total_rest len first offs)
-  /\ max_alloc (sobjstm_work len first offs) <= len
-  /\ total_rest len first offs <= N.of_nat (length offs) * len.
-Proof.
-  intros Hf Ho. unfold sobjstm_work.
-  destruct (sobjstm_work_run len first Hf offs (ret 0) 0 Ho eq_refl ltac:(cbn; lia)) as [R1 R2].
-  unfold no_panic. rewrite R1. repeat split; try assumption.
-  clear. induction offs as [|o t IH]; [cbn; lia|].
-  unfold total_rest in *. cbn [fold_left length]. rewrite fold_rest_acc.
-  assert (member_rest len first o <= len) by (unfold member_rest; destruct (_ <=? _); lia). lia.
-Qed.
-
-(* outside the known class the sum is at most |content|: increasing offsets give disjoint-from-below rests ... the sum
-   telescopes only for the LAST member; what holds in general is that each rest ends at the end of the content, so the
-   linear bound needs the members to be delimited by the next offset, which the code does not do.  What is proved:
-   the quadratic bound above for every index, and that it is attained: *)
 Theorem sobjstm_work_quadratic_witness : forall n len, 0 < len ->
-  total_rest len 0 (repeat 0 n) = N.of_nat n * len /\ KnownSharedOffsets (repeat 0 (S (S n))) = true.
+  total_rest len 0 (repeat 0 n) = N.of_nat n * len.
 Proof.
-  intros n len Hl. split.
-  - induction n as [|n IH]; [reflexivity|].
-    unfold total_rest in *. cbn [repeat fold_left]. rewrite fold_rest_acc, IH.
-    unfold member_rest. replace (len <=? 0 + 0) with false by (symmetry; apply N.leb_gt; lia). lia.
-  - reflexivity.
+  intros n len Hl. induction n as [|n IH]; [reflexivity|].
+  unfold total_rest in *. cbn [repeat fold_left]. rewrite fold_rest_acc, IH.
+  unfold member_rest. replace (len <=? 0 + 0) with false by (symmetry; apply N.leb_gt; lia). lia.
+Qed.
+
+(* the same index after the repair: whatever the parser takes at offset 0, n pairs cost at most (limit + 1) * len *)
+Corollary sobjstm_shared_offsets_linear : forall n len used,
+  exists spent, outcome (sobjstm_work len 0 (repeat (0, used) n)) = SOk spent /\ spent <= (MAX_MEMBER_OVERLAP + 1) * len.
+Proof.
+  intros n len used.
+  destruct (sobjstm_work_safe len 0 (repeat (0, used) n)) as [_ [s [H1 [_ [_ H2]]]]].
+  - unfold ISIZE_MAX. lia.
+  - apply Forall_forall. intros x Hx. apply repeat_spec in Hx. subst x. cbn. unfold U32_MAX. lia.
+  - exists s. auto.
 Qed.
